@@ -6,6 +6,8 @@ import (
 	"fmt"
 	"go/ast"
 	"go/token"
+	"sort"
+	"strconv"
 	"strings"
 )
 
@@ -17,6 +19,48 @@ var c16Field = map[string]int{
 	"pkt.CurrentState":         0,
 	"pkt.ReceiverTicket.State": 1,
 	"pkt.ProviderTicket.State": 2,
+}
+
+// c16Recv is the receiver name of the function being processed ("a" in the
+// source as it is); c16Pkt the name of its *SidecarPacket parameter. Facts are
+// emitted with the canonical names `a` / `pkt` whatever the source calls them.
+var (
+	c16Recv = "a"
+	c16Pkt  = "pkt"
+)
+
+func c16SetNames(fd *ast.FuncDecl) {
+	c16Recv, c16Pkt = "a", "pkt"
+	if fd == nil {
+		return
+	}
+	if fd.Recv != nil && len(fd.Recv.List) == 1 && len(fd.Recv.List[0].Names) == 1 {
+		c16Recv = fd.Recv.List[0].Names[0].Name
+	}
+	if fd.Type.Params != nil {
+		for _, f := range fd.Type.Params.List {
+			if exprString(f.Type) == "*SidecarPacket" && len(f.Names) == 1 {
+				c16Pkt = f.Names[0].Name
+			}
+		}
+	}
+}
+
+// c16Norm renames receiver and packet parameter to their canonical names.
+func c16Norm(e ast.Expr, extra map[string]ast.Expr) string {
+	sub := map[string]ast.Expr{}
+	for k, v := range extra {
+		sub[k] = v
+	}
+	sub[c16Recv] = ast.NewIdent("a")
+	sub[c16Pkt] = ast.NewIdent("pkt")
+	if c16Recv == "a" {
+		delete(sub, "a")
+	}
+	if c16Pkt == "pkt" {
+		delete(sub, "pkt")
+	}
+	return c16Canon(e, sub, 0)
 }
 
 // c16Atoms flattens a case condition `a == S && b == T && ...` into
@@ -32,10 +76,12 @@ func c16Atoms(e ast.Expr, states map[string]string) ([]string, bool) {
 			return append(l, r...), ok1 && ok2
 		}
 		if x.Op == token.EQL {
-			f, ok := c16Field[exprString(x.X)]
-			v, ok2 := states[strings.TrimPrefix(exprString(x.Y), "sidecar.")]
-			if ok && ok2 {
-				return []string{fmt.Sprintf("(%d, %s)", f, v)}, true
+			for _, pr := range [][2]ast.Expr{{x.X, x.Y}, {x.Y, x.X}} {
+				f, ok := c16Field[c16Norm(pr[0], nil)]
+				v, ok2 := states[strings.TrimPrefix(exprString(pr[1]), "sidecar.")]
+				if ok && ok2 {
+					return []string{fmt.Sprintf("(%d, %s)", f, v)}, true
+				}
 			}
 		}
 	}
@@ -50,10 +96,10 @@ func c16Calls(stmts []ast.Stmt) []string {
 		ast.Inspect(s, func(n ast.Node) bool {
 			switch x := n.(type) {
 			case *ast.GoStmt:
-				calls = append(calls, "go "+exprString(x.Call.Fun))
+				calls = append(calls, "go "+c16Norm(x.Call.Fun, nil))
 				return false
 			case *ast.CallExpr:
-				fn := exprString(x.Fun)
+				fn := c16Norm(x.Fun, nil)
 				if strings.HasPrefix(fn, "a.cfg.Driver.") || strings.HasPrefix(fn, "a.cfg.MailBox.") {
 					calls = append(calls, strings.TrimPrefix(fn, "a.cfg."))
 				}
@@ -67,6 +113,7 @@ func c16Calls(stmts []ast.Stmt) []string {
 // c16Return finds the last `return &SidecarPacket{...}, nil` of a clause.
 func c16Return(stmts []ast.Stmt, states map[string]string) (res, recv, prov string) {
 	res, recv, prov = "none", "", ""
+	local := c16OnceAssigned(&ast.BlockStmt{List: stmts})
 	for _, s := range stmts {
 		ast.Inspect(s, func(n ast.Node) bool {
 			r, ok := n.(*ast.ReturnStmt)
@@ -91,9 +138,9 @@ func c16Return(stmts []ast.Stmt, states map[string]string) (res, recv, prov stri
 						fail("C16: non-constant CurrentState in return: %s", exprString(kv.Value))
 					}
 				case "ReceiverTicket":
-					recv = exprString(kv.Value)
+					recv = c16Norm(kv.Value, local)
 				case "ProviderTicket":
-					prov = exprString(kv.Value)
+					prov = c16Norm(kv.Value, local)
 				}
 			}
 			return true
@@ -115,6 +162,8 @@ func c16TopSwitch(fd *ast.FuncDecl) *ast.SwitchStmt {
 }
 
 func c16StepTable(l *leanFile, name string, fd *ast.FuncDecl, states map[string]string) {
+	c16SetNames(fd)
+	defer c16SetNames(nil)
 	sw := c16TopSwitch(fd)
 	if sw == nil {
 		fail("C16: tagless switch of %s not found", name)
@@ -123,6 +172,8 @@ func c16StepTable(l *leanFile, name string, fd *ast.FuncDecl, states map[string]
 	}
 	l.p("def %s : List StepCase := [", name)
 	n := len(sw.Body.List)
+	var sigs []string
+	var falls []bool
 	for i, c := range sw.Body.List {
 		cc := c.(*ast.CaseClause)
 		var atoms []string
@@ -149,8 +200,28 @@ func c16StepTable(l *leanFile, name string, fd *ast.FuncDecl, states map[string]
 		}
 		l.p("  { isDefault := %v, atoms := [%s], fall := %v, result := %s, calls := %s, retRecv := %q, retProv := %q }%s",
 			isDefault, strings.Join(atoms, ", "), fall, res, leanStrList(c16Calls(cc.Body)), recv, prov, sep)
+		sa := append([]string{}, atoms...)
+		sort.Strings(sa)
+		sigs = append(sigs, fmt.Sprintf("default=%v;guard=%s;result=%s;calls=%s;recv=%s;prov=%s", isDefault,
+			strings.Join(sa, "&"), res, strings.Join(c16Calls(cc.Body), "+"), recv, prov))
+		falls = append(falls, fall)
 	}
 	l.p("]")
+	// the clauses as a SET of (guard, effect) signatures; a clause that falls
+	// through is described by the clause it falls into
+	var set []string
+	for i, sg := range sigs {
+		if falls[i] && i+1 < len(sigs) {
+			j := i + 1
+			for j+1 < len(sigs) && falls[j] {
+				j++
+			}
+			sg = strings.SplitN(sg, ";result=", 2)[0] + ";falls-into;result=" + strings.SplitN(sigs[j], ";result=", 2)[1]
+		}
+		set = append(set, sg)
+	}
+	sort.Strings(set)
+	l.p("def %sSet : List String := %s", name, leanStrList(set))
 }
 
 // c16LoopFacts extracts the shape of a run loop: whether the finalization
@@ -161,19 +232,44 @@ func c16LoopFacts(l *leanFile, name string, fd *ast.FuncDecl) {
 		fail("C16: %s not found", name)
 		return
 	}
+	c16SetNames(fd)
+	defer c16SetNames(nil)
+	subst := c16FuncSubst(fd)
+	subst[c16Recv] = ast.NewIdent("a")
 	var finClause *ast.CommClause
-	var breaks []string
+	breakSet := map[string]bool{}
 	ast.Inspect(fd.Body, func(n ast.Node) bool {
 		switch x := n.(type) {
 		case *ast.CommClause:
-			if as, ok := x.Comm.(*ast.AssignStmt); ok && len(as.Rhs) == 1 &&
-				exprString(as.Rhs[0]) == "<-a.ticketFinalized" {
+			// `case fin := <-a.ticketFinalized:` (any variable name)
+			var rhs ast.Expr
+			switch c := x.Comm.(type) {
+			case *ast.AssignStmt:
+				if len(c.Rhs) == 1 {
+					rhs = c.Rhs[0]
+				}
+			case *ast.ExprStmt:
+				rhs = c.X
+			}
+			if rhs != nil && strings.HasSuffix(exprString(rhs), ".ticketFinalized") && strings.HasPrefix(exprString(rhs), "<-") {
 				finClause = x
 			}
 		case *ast.CaseClause:
+			// `case cond: break label` of the provider's stateUpdateLoop
 			if len(x.Body) == 1 {
-				if b, ok := x.Body[0].(*ast.BranchStmt); ok && b.Tok == token.BREAK && b.Label != nil && len(x.List) == 1 {
-					breaks = append(breaks, exprString(x.List[0]))
+				if b, ok := x.Body[0].(*ast.BranchStmt); ok && b.Tok == token.BREAK && b.Label != nil {
+					for _, c := range x.List {
+						breakSet[c16Canon(c, subst, 0)] = true
+					}
+				}
+			}
+		case *ast.IfStmt:
+			// `if cond { break label }`
+			if len(x.Body.List) == 1 && x.Else == nil {
+				if b, ok := x.Body.List[0].(*ast.BranchStmt); ok && b.Tok == token.BREAK && b.Label != nil {
+					for _, c := range c16Flatten(x.Cond, token.LOR, subst, 0) {
+						breakSet[c] = true
+					}
 				}
 			}
 		}
@@ -183,96 +279,133 @@ func c16LoopFacts(l *leanFile, name string, fd *ast.FuncDecl) {
 		fail("C16: %s: finalization branch not found", name)
 		return
 	}
+	var breaks []string
+	for b := range breakSet {
+		breaks = append(breaks, b)
+	}
+	sort.Strings(breaks)
 	finRet := false
 	if k := len(finClause.Body); k > 0 {
 		_, finRet = finClause.Body[k-1].(*ast.ReturnStmt)
 	}
-	// the cancel-notification condition of the finalization branch
-	cond := ""
+	// the cancel-notification condition of the finalization branch: the guard
+	// under which the ticket is SENT to the other side (atoms, canonical, sorted)
+	fsub := c16OnceAssigned(finClause)
+	for k, v := range subst {
+		if _, ok := fsub[k]; !ok {
+			fsub[k] = v
+		}
+	}
+	var cond []string
 	ast.Inspect(finClause, func(n ast.Node) bool {
-		if sw, ok := n.(*ast.SwitchStmt); ok && sw.Tag == nil && cond == "" && len(sw.Body.List) > 0 {
-			cc := sw.Body.List[0].(*ast.CaseClause)
-			if len(cc.List) == 1 {
-				cond = strings.Join(strings.Fields(exprString(cc.List[0])), " ")
+		if cond != nil {
+			return false
+		}
+		sendsIn := func(list []ast.Stmt) bool {
+			for _, c := range c16Calls(list) {
+				if c == "MailBox.SendSidecarPkt" {
+					return true
+				}
+			}
+			return false
+		}
+		switch x := n.(type) {
+		case *ast.CaseClause:
+			if len(x.List) == 1 && sendsIn(x.Body) {
+				cond = c16Conj(x.List[0], fsub)
+			}
+		case *ast.IfStmt:
+			if sendsIn(x.Body.List) {
+				cond = c16Conj(x.Cond, fsub)
 			}
 		}
 		return true
 	})
+	// calls of the branch: the store write must come first, the rest is a set
+	calls := c16Calls(finClause.Body)
+	first := ""
+	var rest []string
+	if len(calls) > 0 {
+		first = calls[0]
+		seen := map[string]bool{}
+		for _, c := range calls[1:] {
+			if !seen[c] {
+				seen[c] = true
+				rest = append(rest, c)
+			}
+		}
+		sort.Strings(rest)
+	}
 	l.p("def %sFinReturns : Bool := %v", name, finRet)
-	l.p("def %sFinCalls : List String := %s", name, leanStrList(c16Calls(finClause.Body)))
-	l.p("def %sFinNotifyCond : String := %q", name, cond)
+	l.p("def %sFinFirstCall : String := %q", name, first)
+	l.p("def %sFinOtherCalls : List String := %s", name, leanStrList(rest))
+	l.p("def %sFinNotifyCond : List String := %s", name, leanStrList(cond))
 	l.p("def %sLoopBreaks : List String := %s", name, leanStrList(breaks))
-	// the simulated starting packet
-	start := ""
+	// the simulated starting packet: guard (canonical atoms) and value
+	startGuard := []string{}
+	startVal := ""
 	ast.Inspect(fd.Body, func(n ast.Node) bool {
 		switch x := n.(type) {
 		case *ast.IfStmt:
 			if len(x.Body.List) == 1 {
 				if s, ok := x.Body.List[0].(*ast.SendStmt); ok && exprString(s.Chan) == "packetChan" {
-					start = "if " + exprString(x.Cond) + " then " + exprString(s.Value)
+					startGuard = c16Conj(x.Cond, subst)
+					startVal = c16Canon(s.Value, subst, 0)
 				}
 			}
 		case *ast.SendStmt:
-			if exprString(x.Chan) == "packetChan" && start == "" && strings.HasPrefix(exprString(x.Value), "startingPkt.") {
-				start = exprString(x.Value)
+			if exprString(x.Chan) == "packetChan" && startVal == "" && strings.HasPrefix(c16Canon(x.Value, subst, 0), "$") {
+				startVal = c16Canon(x.Value, subst, 0)
 			}
 		}
 		return true
 	})
-	l.p("def %sStartPacket : String := %q", name, start)
+	l.p("def %sStartGuard : List String := %s", name, leanStrList(startGuard))
+	l.p("def %sStartPacket : String := %q", name, startVal)
 
-	// the reader goroutine's retry branch after a failed RecvSidecarPkt: the
-	// statements after the back-off (the re-initialisation of the mailbox must
-	// not be able to end the reader)
-	var retry []string
-	found := false
+	// the reader goroutine's retry branch after a failed RecvSidecarPkt: which
+	// mailbox calls it makes and whether anything in it can END the reader
+	// (a return statement at any depth)
+	var retryCalls []string
+	canReturn, found := false, false
 	ast.Inspect(fd.Body, func(n ast.Node) bool {
 		cc, ok := n.(*ast.CommClause)
 		if !ok || cc.Comm == nil {
 			return true
 		}
-		es, ok := cc.Comm.(*ast.ExprStmt)
-		if !ok || !strings.Contains(exprString(es.X), "retryTimer.backOff") {
+		var rx ast.Expr
+		switch c := cc.Comm.(type) {
+		case *ast.ExprStmt:
+			rx = c.X
+		case *ast.AssignStmt:
+			if len(c.Rhs) == 1 {
+				rx = c.Rhs[0]
+			}
+		}
+		if rx == nil || !strings.Contains(exprString(rx), "backOff") {
 			return true
 		}
 		found = true
+		retryCalls = c16Calls(cc.Body)
 		for _, st := range cc.Body {
-			switch x := st.(type) {
-			case *ast.AssignStmt:
-				lhs := []string{}
-				for _, e := range x.Lhs {
-					lhs = append(lhs, exprString(e))
+			ast.Inspect(st, func(m ast.Node) bool {
+				if _, ok := m.(*ast.ReturnStmt); ok {
+					canReturn = true
 				}
-				rhs := ""
-				if len(x.Rhs) == 1 {
-					if c, ok := x.Rhs[0].(*ast.CallExpr); ok {
-						rhs = strings.TrimPrefix(exprString(c.Fun), "a.cfg.")
-					}
+				if _, ok := m.(*ast.FuncLit); ok {
+					return false
 				}
-				retry = append(retry, strings.Join(lhs, ",")+" "+x.Tok.String()+" "+rhs)
-			case *ast.BranchStmt:
-				retry = append(retry, x.Tok.String())
-			case *ast.ReturnStmt:
-				retry = append(retry, "return")
-			case *ast.IfStmt:
-				kind := "if"
-				ast.Inspect(x, func(m ast.Node) bool {
-					if _, ok := m.(*ast.ReturnStmt); ok {
-						kind = "if-return"
-					}
-					return true
-				})
-				retry = append(retry, kind)
-			default:
-				retry = append(retry, "stmt")
-			}
+				return true
+			})
 		}
 		return true
 	})
 	if !found {
 		fail("C16: %s: retry branch of the mailbox reader not found", name)
 	}
-	l.p("def %sReaderRetry : List String := %s", name, leanStrList(retry))
+	sort.Strings(retryCalls)
+	l.p("def %sReaderRetryCalls : List String := %s", name, leanStrList(retryCalls))
+	l.p("def %sReaderRetryCanEnd : Bool := %v", name, canReturn)
 }
 
 func genC16() {
@@ -326,27 +459,22 @@ func genC16() {
 	}
 	l.p("def sidecarStates : List (String × Nat) := [%s]", strings.Join(pairs, ", "))
 
-	// State.IsTerminal
+	// State.IsTerminal, evaluated over the enum (whatever its shape)
 	var term []string
-	if fd := findFunc(sc, "State.IsTerminal"); fd != nil {
-		ast.Inspect(fd.Body, func(n ast.Node) bool {
-			cc, ok := n.(*ast.CaseClause)
-			if !ok || len(cc.Body) != 1 {
-				return true
+	if fd := findFunc(sc, "State.IsTerminal"); fd != nil && fd.Recv != nil && len(fd.Recv.List[0].Names) == 1 {
+		rn := fd.Recv.List[0].Names[0].Name
+		for _, n := range all {
+			v, _ := strconv.ParseInt(states[n], 10, 64)
+			ev := &c16Eval{files: sc, states: states, input: v}
+			res, ret, ok := ev.stmts(fd.Body.List, c16Env{rn: v})
+			if !ret || !ok {
+				fail("C16: State.IsTerminal cannot be evaluated for %s", n)
+				continue
 			}
-			r, ok := cc.Body[0].(*ast.ReturnStmt)
-			if !ok || len(r.Results) != 1 || exprString(r.Results[0]) != "true" {
-				return true
+			if res != 0 {
+				term = append(term, states[n])
 			}
-			for _, e := range cc.List {
-				if v, ok := states[exprString(e)]; ok {
-					term = append(term, v)
-				} else {
-					fail("C16: IsTerminal case %s unknown", exprString(e))
-				}
-			}
-			return true
-		})
+		}
 	} else {
 		fail("C16: State.IsTerminal not found")
 	}
@@ -362,113 +490,195 @@ func genC16() {
 	te := findFunc(root, "SidecarNegotiator.TicketExecuted")
 	stops := false
 	if te != nil && len(te.Body.List) > 0 {
-		if es, ok := te.Body.List[len(te.Body.List)-1].(*ast.ExprStmt); ok && exprString(es.X) == "a.Stop()" {
-			stops = true
+		// the last statement (or a deferred call) stops the negotiator
+		switch x := te.Body.List[len(te.Body.List)-1].(type) {
+		case *ast.ExprStmt:
+			stops = strings.HasSuffix(exprString(x.X), ".Stop()")
+		}
+		for _, st := range te.Body.List {
+			if d, ok := st.(*ast.DeferStmt); ok && strings.HasSuffix(exprString(d.Call), ".Stop()") {
+				stops = true
+			}
 		}
 	}
 	l.p("def ticketExecutedStops : Bool := %v", stops)
 
-	// SidecarAcceptor.Start resume rules
+	// SidecarAcceptor.Start resume rules: the state a negotiator is resumed in
+	// is EVALUATED for every stored ticket state (inline code, if/switch or a
+	// helper function make no difference); tickets and guard are canonicalised.
 	st := findFunc(root, "SidecarAcceptor.Start")
-	var remap, autoCond string
-	var pkts []string
+	var remapP, remapR, autoCond, pkts []string
 	if st == nil {
 		fail("C16: SidecarAcceptor.Start not found")
 	} else {
+		// the loop variable over the stored tickets
+		tv := "ticket"
+		ast.Inspect(st.Body, func(n ast.Node) bool {
+			if rs, ok := n.(*ast.RangeStmt); ok {
+				hasLit := false
+				ast.Inspect(rs.Body, func(m ast.Node) bool {
+					if cl, ok := m.(*ast.CompositeLit); ok && exprString(cl.Type) == "AutoAcceptorConfig" {
+						hasLit = true
+					}
+					return true
+				})
+				if id, ok := rs.Value.(*ast.Ident); ok && hasLit {
+					tv = id.Name
+				}
+			}
+			return true
+		})
+		tsub := map[string]ast.Expr{tv: ast.NewIdent("$ticket")}
+		nLits := 0
 		ast.Inspect(st.Body, func(n ast.Node) bool {
 			switch x := n.(type) {
-			case *ast.IfStmt:
-				if exprString(x.Cond) == "state == sidecar.StateOffered" && len(x.Body.List) == 1 {
-					if as, ok := x.Body.List[0].(*ast.AssignStmt); ok && exprString(as.Lhs[0]) == "state" {
-						if v, ok := states[strings.TrimPrefix(exprString(as.Rhs[0]), "sidecar.")]; ok {
-							remap = fmt.Sprintf("(%s, %s)", states["StateOffered"], v)
-						}
-					}
-				}
 			case *ast.CaseClause:
-				if len(x.List) == 1 && strings.Contains(exprString(x.List[0]), "ticket.Offer.Auto") {
-					autoCond = strings.Join(strings.Fields(exprString(x.List[0])), " ")
+				if len(x.List) == 1 && strings.Contains(exprString(x.List[0]), ".Offer.Auto") {
+					autoCond = c16Conj(x.List[0], tsub)
+				}
+			case *ast.IfStmt:
+				if strings.Contains(exprString(x.Cond), ".Offer.Auto") {
+					autoCond = c16Conj(x.Cond, tsub)
 				}
 			case *ast.CompositeLit:
-				if exprString(x.Type) == "AutoAcceptorConfig" {
-					role, sp := "", ""
-					for _, el := range x.Elts {
-						kv := el.(*ast.KeyValueExpr)
-						switch exprString(kv.Key) {
-						case "Provider":
-							role = exprString(kv.Value)
-						case "StartingPkt":
-							if u, ok := kv.Value.(*ast.UnaryExpr); ok {
-								if cl, ok := u.X.(*ast.CompositeLit); ok {
-									var fs []string
-									for _, e2 := range cl.Elts {
-										kv2 := e2.(*ast.KeyValueExpr)
-										fs = append(fs, exprString(kv2.Key)+"="+exprString(kv2.Value))
+				if exprString(x.Type) != "AutoAcceptorConfig" {
+					return true
+				}
+				nLits++
+				role := ""
+				var curExpr ast.Expr
+				var fs []string
+				for _, el := range x.Elts {
+					kv, ok := el.(*ast.KeyValueExpr)
+					if !ok {
+						continue
+					}
+					switch exprString(kv.Key) {
+					case "Provider":
+						role = exprString(kv.Value)
+					case "StartingPkt":
+						if u, ok := kv.Value.(*ast.UnaryExpr); ok {
+							if cl, ok := u.X.(*ast.CompositeLit); ok {
+								for _, e2 := range cl.Elts {
+									kv2, ok := e2.(*ast.KeyValueExpr)
+									if !ok {
+										continue
 									}
-									sp = strings.Join(fs, ",")
+									if exprString(kv2.Key) == "CurrentState" {
+										curExpr = kv2.Value
+									} else {
+										fs = append(fs, exprString(kv2.Key)+"="+c16Canon(kv2.Value, tsub, 0))
+									}
 								}
 							}
 						}
 					}
-					pkts = append(pkts, "provider="+role+";"+sp)
+				}
+				sort.Strings(fs)
+				pkts = append(pkts, "provider="+role+";"+strings.Join(fs, ","))
+				if curExpr == nil {
+					fail("C16: Start: StartingPkt.CurrentState of the %s negotiator not found", role)
+					return true
+				}
+				before := c16EnclosingList(st, x)
+				var remap []string
+				for _, n := range all {
+					v, _ := strconv.ParseInt(states[n], 10, 64)
+					ev := &c16Eval{files: root, states: states, input: v}
+					env := c16Env{}
+					ev.stmts(before, env)
+					res, ok := ev.expr(curExpr, env)
+					if !ok {
+						fail("C16: Start: resume state of the %s negotiator cannot be evaluated for %s", role, n)
+						continue
+					}
+					if res != v {
+						remap = append(remap, fmt.Sprintf("(%d, %d)", v, res))
+					}
+				}
+				if role == "true" {
+					remapP = remap
+				} else {
+					remapR = remap
 				}
 			}
 			return true
 		})
-		if remap == "" {
-			fail("C16: Start: `if state == sidecar.StateOffered { state = ... }` not found")
+		sort.Strings(pkts)
+		if nLits != 2 {
+			fail("C16: Start: expected a provider and a recipient negotiator, found %d", nLits)
 		}
-		if autoCond == "" {
+		if autoCond == nil {
 			fail("C16: Start: auto-negotiation resume condition not found")
 		}
 	}
-	// clientdb.removeBidTemplate: which conditions return nil, and whether a
-	// missing template bucket (second terminal update) is tolerated
+	// clientdb.removeBidTemplate: the guards that return nil early (canonical,
+	// sorted) and whether a template that is already gone is tolerated: the
+	// error of DeleteBucket is compared with bbolt.ErrBucketNotFound somewhere
+	// (==, != or errors.Is) and the function can still end with `return nil`
 	cdb := pkgFiles("clientdb")
-	var rbt []string
+	var nilGuards []string
+	tolerates, endsNil := false, false
 	if fd := findFunc(cdb, "removeBidTemplate"); fd != nil {
-		for _, st := range fd.Body.List {
-			switch x := st.(type) {
+		rsub := c16FuncSubst(fd)
+		ast.Inspect(fd.Body, func(n ast.Node) bool {
+			switch x := n.(type) {
 			case *ast.IfStmt:
-				ret := "?"
 				if len(x.Body.List) == 1 {
-					if r, ok := x.Body.List[0].(*ast.ReturnStmt); ok && len(r.Results) == 1 {
-						ret = exprString(r.Results[0])
+					if r, ok := x.Body.List[0].(*ast.ReturnStmt); ok && len(r.Results) == 1 && exprString(r.Results[0]) == "nil" {
+						c := c16Canon(x.Cond, rsub, 0)
+						if !strings.Contains(c, "ErrBucketNotFound") {
+							nilGuards = append(nilGuards, c)
+						}
 					}
 				}
-				rbt = append(rbt, "if "+strings.Join(strings.Fields(exprString(x.Cond)), " ")+" return "+ret)
-			case *ast.ReturnStmt:
-				if len(x.Results) == 1 {
-					rbt = append(rbt, "return "+strings.Join(strings.Fields(exprString(x.Results[0])), " "))
-				}
-			case *ast.AssignStmt:
-				if len(x.Rhs) == 1 {
-					if c, ok := x.Rhs[0].(*ast.CallExpr); ok {
-						rbt = append(rbt, exprString(x.Lhs[0])+" := "+exprString(c.Fun))
-					}
+			case *ast.SelectorExpr:
+				if x.Sel.Name == "ErrBucketNotFound" {
+					tolerates = true
 				}
 			}
+			return true
+		})
+		if k := len(fd.Body.List); k > 0 {
+			if r, ok := fd.Body.List[k-1].(*ast.ReturnStmt); ok && len(r.Results) == 1 && exprString(r.Results[0]) == "nil" {
+				endsNil = true
+			}
 		}
+		// `if err == ErrBucketNotFound { return nil }; return err` is the same
+		ast.Inspect(fd.Body, func(n ast.Node) bool {
+			if x, ok := n.(*ast.IfStmt); ok && strings.Contains(exprString(x.Cond), "ErrBucketNotFound") {
+				ast.Inspect(x.Body, func(m ast.Node) bool {
+					if r, ok := m.(*ast.ReturnStmt); ok && len(r.Results) == 1 && exprString(r.Results[0]) == "nil" {
+						endsNil = true
+					}
+					return true
+				})
+			}
+			return true
+		})
+		sort.Strings(nilGuards)
 	} else {
 		fail("C16: clientdb.removeBidTemplate not found")
 	}
-	l.p("def removeBidTemplateShape : List String := %s", leanStrList(rbt))
+	l.p("def removeBidTemplateNilGuards : List String := %s", leanStrList(nilGuards))
+	l.p("def removeBidTemplateToleratesMissing : Bool := %v", tolerates && endsNil)
 	// DB.UpdateSidecar: the guard under which the template is removed
-	upd := ""
+	var upd []string
 	if fd := findFunc(cdb, "DB.UpdateSidecar"); fd != nil {
 		ast.Inspect(fd.Body, func(n ast.Node) bool {
 			if x, ok := n.(*ast.IfStmt); ok && strings.Contains(exprString(x.Cond), "IsTerminal") {
-				upd = strings.Join(strings.Fields(exprString(x.Cond)), " ")
+				upd = c16Conj(x.Cond, c16FuncSubst(fd))
 			}
 			return true
 		})
 	}
-	if upd == "" {
+	if upd == nil {
 		fail("C16: DB.UpdateSidecar: terminal-state guard not found")
 	}
-	l.p("def updateSidecarTemplateGuard : String := %q", upd)
-	l.p("def resumeRemap : List (Nat × Nat) := [%s]", remap)
-	l.p("def resumeCond : String := %q", autoCond)
+	l.p("def updateSidecarTemplateGuard : List String := %s", leanStrList(upd))
+	l.p("def resumeRemap : List (Nat × Nat) := [%s]", strings.Join(remapP, ", "))
+	l.p("def recipientResumeRemap : List (Nat × Nat) := [%s]", strings.Join(remapR, ", "))
+	l.p("def resumeCond : List String := %s", leanStrList(autoCond))
 	l.p("def resumePackets : List String := %s", leanStrList(pkts))
 	l.p("end Pool.Gen.C16")
 }
